@@ -39,7 +39,7 @@ def _cells(x):
 def check_execution(part, ex, cache):
     gen, (R, C), kwargs = ex.gen, ex.shape, ex.kwargs
     kk = RS.kwargs_key(kwargs)
-    if ex.exc is not None or ex.maze is None:
+    if ex.cut or ex.exc is not None or ex.maze is None:
         return  # no maze, no metadata: a raising generator is reported by C01 (C01:raises:<generator>)
     inp = ex.input()
     maze = ex.maze
@@ -184,7 +184,10 @@ def replay(check, inp):
     """re-run exactly the recorded execution (generator, shape, kwargs, decision script); True iff every C12 clause holds on it now"""
     warnings.simplefilter("ignore")
     part = RS.Partial()
-    ex = RS.replay_execution(inp["generator"], tuple(int(x) for x in inp["shape"]), RS.norm_kwargs(inp.get("kwargs") or {}), list(inp["script"]))
+    ex = RS.replay_input(inp)
+    if ex.cut:
+        print("  the recorded script is no longer a complete execution (draw cap reached)")
+        return False
     if ex.exc is not None:
         print(f"  the generator now raises {type(ex.exc).__name__}: {ex.exc} (see C01)")
         return False
